@@ -67,6 +67,40 @@ CHECKS["C12"] = dict(
     technique=TECH,
 )
 
+CHECKS["C15"] = dict(
+    category="proof",
+    text=("ParserState is proved to keep exactly one tree / association / language entry per physical file: _get_realpath "
+          "returns os.path.realpath under the cache invariant; insert_file addresses the real path, never parses a known "
+          "file again (ghost call counter), parses a new one exactly once and starts it with an empty association; "
+          "get_tree/get_map look up through the real path; the table invariant (keys canonical, three tables with equal "
+          "domains) is preserved. get_setmap (shared with C06) is proved to skip exactly the symbolic links whose target "
+          "is a member. Membership of links (CodeBase.__contains__) and FileTree.insert are not under contract yet."),
+    design_ref="DESIGN.md section 5 C15, section 9",
+    note=COMMON_NOTE + "A4 static file system, realpath pure and idempotent; FileParser.parse_file assumed to be a function of (file, language, flag).",
+    technique=TECH,
+)
+CHECKS["C06"] = dict(
+    category="proof",
+    text=("ParserState.get_setmap is proved, for every code base, parse state and enumeration order, to return for each "
+          "platform set S exactly the sum over the canonical (non-skipped) files of the lines of the code nodes whose "
+          "association is exactly S (nested loops cut by a big-sum invariant over files and a prefix-sum invariant over "
+          "the node list) - the 'one platform set per line' clause. The agreement of the summary, tree and coverage "
+          "front ends (report.summary, FileTree, coverage._compute) is not under contract yet."),
+    design_ref="DESIGN.md section 5 C06, section 9",
+    note=COMMON_NOTE + "A4; A10 big-sum/prefix-sum axioms; tree.walk() a pure function of the tree; get_tree/get_map used through their own contracts (C15).",
+    technique=TECH,
+)
+CHECKS["C16"] = dict(
+    category="proof",
+    text=("report.find_duplicates is proved (four nested loops, partition-refinement invariants, termination of the "
+          "while loop by card(remaining)) to return exactly the content-equality classes of size >= 2 among the "
+          "enumerated members that are not symbolic links: every group is a full class, every file with an identical "
+          "twin is listed, no group is listed twice - for every code base and every hash-bucket / set iteration order."),
+    design_ref="DESIGN.md section 5 C16, section 9",
+    note=COMMON_NOTE + "A5 sha512 digest is a function of content, filecmp.cmp(shallow=False) <=> equal content; A4 static FS, no I/O errors; A10 cardinality lemmas.",
+    technique=TECH,
+)
+
 NA = {}
 
 DEFAULT_NA = "check not built yet (work in progress; see DESIGN.md section 5 for the plan)"
